@@ -769,6 +769,15 @@ func (tt *TermTab) ToReal(a *Term, signed bool) *Term {
 		}
 		return tt.RConst(new(big.Rat).SetInt(new(big.Int).SetUint64(a.val)))
 	}
+	// the value of an extension is the value of what it extends
+	for a.op == OpZExt || a.op == OpSExt {
+		if a.op == OpZExt {
+			signed = false
+		} else if !signed {
+			break // unsigned reading of a sign extension: keep the wide term
+		}
+		a = a.a
+	}
 	if signed {
 		return tt.mk(OpSToReal, SReal, a, nil, nil, 0, "")
 	}
@@ -972,14 +981,21 @@ func (t *Term) body() string {
 		return fmt.Sprintf("((_ sign_extend %d) %s)", int(t.sort)-int(t.a.sort), t.a.ref())
 	case OpExtract:
 		return fmt.Sprintf("((_ extract %d %d) %s)", t.val>>8, t.val&0xff, t.a.ref())
-	case OpToReal:
-		return fmt.Sprintf("(to_real (bv2nat %s))", t.a.ref())
-	case OpSToReal:
+	case OpToReal, OpSToReal:
+		// sum of weighted bits: linear real arithmetic over the bits, which the solvers
+		// handle far better than bv2nat
 		w := int(t.a.sort)
-		half := new(big.Int).Lsh(big.NewInt(1), uint(w-1))
-		full := new(big.Int).Lsh(big.NewInt(1), uint(w))
-		return fmt.Sprintf("(to_real (ite (bvslt %s %s) (- (bv2nat %s) %s) (bv2nat %s)))", t.a.ref(), bvLit(t.a.sort, 0), t.a.ref(), full.String(), t.a.ref())
-		_ = half
+		var sb strings.Builder
+		sb.WriteString("(+ 0.0")
+		for i := 0; i < w; i++ {
+			wt := new(big.Int).Lsh(big.NewInt(1), uint(i)).String() + ".0"
+			if t.op == OpSToReal && i == w-1 {
+				wt = "(- " + wt + ")"
+			}
+			fmt.Fprintf(&sb, " (ite (= ((_ extract %d %d) %s) #b1) %s 0.0)", i, i, t.a.ref(), wt)
+		}
+		sb.WriteString(")")
+		return sb.String()
 	case OpUF:
 		if t.b != nil {
 			return fmt.Sprintf("(%s %s %s)", smtName(t.name), t.a.ref(), t.b.ref())
@@ -1039,4 +1055,72 @@ func (t *Term) exprString(depth int) string {
 	}
 	sb.WriteString(")")
 	return sb.String()
+}
+
+// realBounds returns an interval containing the real term's value, derived from its
+// structure only (so that re-executions of a path prefix agree), or ok=false.
+func realBounds(t *Term, depth int) (lo, hi *big.Rat, ok bool) {
+	if t == nil || depth > 40 {
+		return nil, nil, false
+	}
+	switch t.op {
+	case OpRConst:
+		return t.rat, t.rat, true
+	case OpToReal:
+		w := uint(t.a.sort)
+		if t.a.ub > 0 && uint(t.a.ub) < w {
+			w = uint(t.a.ub)
+		}
+		h := new(big.Int).Sub(new(big.Int).Lsh(big.NewInt(1), w), big.NewInt(1))
+		return new(big.Rat), new(big.Rat).SetInt(h), true
+	case OpSToReal:
+		w := uint(t.a.sort)
+		h := new(big.Int).Lsh(big.NewInt(1), w-1)
+		return new(big.Rat).SetInt(new(big.Int).Neg(h)), new(big.Rat).SetInt(new(big.Int).Sub(h, big.NewInt(1))), true
+	case OpRNeg:
+		l, h, ok := realBounds(t.a, depth+1)
+		if !ok {
+			return nil, nil, false
+		}
+		return new(big.Rat).Neg(h), new(big.Rat).Neg(l), true
+	case OpRAdd, OpRSub, OpRMul:
+		la, ha, ok1 := realBounds(t.a, depth+1)
+		lb, hb, ok2 := realBounds(t.b, depth+1)
+		if !ok1 || !ok2 {
+			return nil, nil, false
+		}
+		switch t.op {
+		case OpRAdd:
+			return new(big.Rat).Add(la, lb), new(big.Rat).Add(ha, hb), true
+		case OpRSub:
+			return new(big.Rat).Sub(la, hb), new(big.Rat).Sub(ha, lb), true
+		}
+		var mn, mx *big.Rat
+		for _, x := range []*big.Rat{la, ha} {
+			for _, y := range []*big.Rat{lb, hb} {
+				p := new(big.Rat).Mul(x, y)
+				if mn == nil || p.Cmp(mn) < 0 {
+					mn = p
+				}
+				if mx == nil || p.Cmp(mx) > 0 {
+					mx = p
+				}
+			}
+		}
+		return mn, mx, true
+	case OpIte:
+		la, ha, ok1 := realBounds(t.b, depth+1)
+		lb, hb, ok2 := realBounds(t.c, depth+1)
+		if !ok1 || !ok2 {
+			return nil, nil, false
+		}
+		if lb.Cmp(la) < 0 {
+			la = lb
+		}
+		if hb.Cmp(ha) > 0 {
+			ha = hb
+		}
+		return la, ha, true
+	}
+	return nil, nil, false
 }
